@@ -7,8 +7,8 @@ use crate::{Case, Rng};
 pub const VTYPES: [&str; 14] = [
     "u8", "u16", "u32", "u64", "u128", "usize", "i8", "i16", "i32", "i64", "i128", "isize", "empty", "w3",
 ];
-pub const PROFILES: [&str; 9] =
-    ["std", "lm", "values", "utf8", "serial", "invalid", "nfb", "perm", "mixed"];
+pub const PROFILES: [&str; 10] =
+    ["std", "lm", "values", "utf8", "serial", "invalid", "nfb", "perm", "mixed", "vacant"];
 const NFBS: [u32; 6] = [1, 2, 3, 4, 16, 64];
 
 type Sym = u32;
@@ -582,6 +582,40 @@ fn p_nfb(r: &mut Rng, n: usize) -> Vec<Case> {
         .collect()
 }
 
+/// Systematic sweep aimed at vacant-slot CHECK collisions of the byte-wise layout: vacant slots
+/// default to CHECK 0 (and the final sanitising writes small values), so a state whose BASE equals
+/// the index of a vacant slot accepts byte 0x00/0x01 by mistake. The second byte `y` of a two-byte
+/// pattern runs through all 256 values (it steers the BASE of the first state), while one-byte
+/// patterns 0x00 / 0x01 make the wrong transition observable.
+fn p_vacant(r: &mut Rng, n: usize) -> Vec<Case> {
+    let y = (n % 256) as Sym;
+    let kind = r.below(3) as u8;
+    let x = 0x61 + r.below(20) as Sym;
+    let z = r.below(256) as Sym;
+    let mut set: Vec<Word> = vec![vec![0], vec![x, y]];
+    if r.pct(50) {
+        set.push(vec![1]);
+    }
+    if r.pct(40) {
+        set.push(vec![x + 1, z]);
+    }
+    if r.pct(30) {
+        set.push(vec![x, y, z]);
+    }
+    let set = dedup(set);
+    let hs: Vec<Word> = vec![
+        vec![x, 0],
+        vec![x, 1],
+        vec![x, y, 0],
+        vec![x, y, 1, 0],
+        vec![0, x, y],
+        vec![x + 1, 0, 1],
+        vec![x, y, z, 0],
+    ];
+    let nfb = pick_nfb(r);
+    vec![mk(Spec { id: format!("k{}", n), variant: 'B', kind, nfb, entry: 'P', vt: "u32" }, false, &set, None, &hs)]
+}
+
 /// One generation step: a case or a group of related cases.  `n` is the item counter (ids).
 pub fn item(profile: &str, r: &mut Rng, n: usize) -> Vec<Case> {
     match profile {
@@ -593,6 +627,7 @@ pub fn item(profile: &str, r: &mut Rng, n: usize) -> Vec<Case> {
         "invalid" => p_invalid(r, n),
         "nfb" => p_nfb(r, n),
         "perm" => p_perm(r, n),
+        "vacant" => p_vacant(r, n),
         _ => {
             let x = r.below(100);
             let sub = match x {
